@@ -16,7 +16,9 @@ Clauses:
   accept  - valid HP (<= 13 decimals, fields < 60) is accepted by every HP-taking entry point
                                                                              key   <call>:rejects-valid
   reject  - minutes or seconds field >= 60 is rejected by hp2dec and HPAngle key   <call>:accepts-invalid
-A suffix `:ge512` marks inputs of magnitude >= 512 deg (binary64 cannot hold 13 decimals there).
+A suffix `:ge512` marks inputs of magnitude >= 512 deg. From 512 deg up neighbouring doubles are
+1.1e-13 apart, so two 13-decimal HP values can share one double; HP inputs there are written with
+at most 12 decimals (1e-8" resolution), which binary64 does separate.
 Quick: sampled (boundary-rich, >= 20 000 lattice points + random); thorough: the complete
 whole-arc-second lattice (2 592 000 HP values and the decimal / gradian values) for the direct
 functions and methods.
@@ -101,11 +103,11 @@ def meanings(kind, v):
     raise ValueError(kind)
 
 
+_KIND = {A.DECAngle: 'DEC', A.HPAngle: 'HP', A.GONAngle: 'GON', A.DMSAngle: 'DMS', A.DDMAngle: 'DDM'}
+
+
 def kind_of(v, numeric_kind):
-    for c in OBJ:
-        if isinstance(v, getattr(A, c + 'Angle')):
-            return c
-    return numeric_kind
+    return _KIND.get(type(v), numeric_kind)
 
 
 # ------------------------------------------------------------------ entry points (notation graph)
@@ -363,6 +365,8 @@ def sample_worker(job):
             m, s = rng.choice([(59, 59), (0, 0), (0, 59), (rng.randrange(60), rng.randrange(60))])
             frac = rng.choice(['999999999', '000000001', '5', '999999995', f'{rng.randrange(E9):09}',
                                f'{rng.randrange(10 ** rng.randrange(1, 9))}'])
+            if d >= 512:      # binary64 holds 12 HP decimals from 512 deg up (spacing 1.1e-13)
+                frac = frac[:8]
             hs = hp_string(d, m, s, frac)
             neg = rng.random() < 0.5
             n13 = hp_string_n13(hs)
@@ -386,7 +390,7 @@ def sample_worker(job):
             test_point(acc, rng, 'dec', x, Fr(x) * 3600, f'dec {x!r}', chains=2)
             g = rng.uniform(-800, 800)
             test_point(acc, rng, 'gon', g, Fr(g) * 3240, f'gon {g!r}', chains=1)
-            hs = f'{abs(x):.13f}'
+            hs = f'{abs(x):.13f}' if abs(x) < 512 else f'{abs(x):.12f}'
             if hp_fields_valid(hp_string_n13(hs)):
                 neg = x < 0
                 T = signed(neg, hp_n13_arcsec(hp_string_n13(hs)))
@@ -404,7 +408,7 @@ def sample_worker(job):
 
 def run(p):
     thorough = p.tier == 'thorough'
-    f = p.n(1, 6)
+    f = p.n(1, 4)
     jobs = []
     for k in range(16):
         jobs += [('lattice', k, 1300 * f), ('lattice720', k, 300 * f), ('hpfrac', k, 500 * f), ('boundary', k, 500 * f),
